@@ -1,11 +1,13 @@
 package mapx
 
 // Hand-written ENVIRONMENT for the extracted map implementation (trusted; not
-// part of the code under test): allocation, memory copy/clear, the random
-// source and the fatal-error hooks that the real file gets from the rest of
-// the run-time library (stubs.go, z_gc.go, mbarrier.go, C rand). Everything in
-// map.go and the iteration wrappers of z_map.go is the REAL code, copied
-// mechanically from /repo's working tree on every run.
+// part of the code under test): allocation (zeroed, as AllocZ), typed memory
+// copy, the random source, the fatal-error hooks and the C library's memset.
+// Everything in map.go, the operation/iteration wrappers of z_map.go AND the
+// helpers add / roundupsize / memclrHasPointers / memclrNoHeapPointers of
+// stubs.go is the REAL code, copied mechanically from /repo's working tree on
+// every run (an earlier version of this file implemented the memclr helpers
+// itself and thereby hid that the real ones were empty).
 
 import (
 	"unsafe"
@@ -40,9 +42,17 @@ const maxAlloc = 1 << 48
 // pointers stored in untyped memory)
 var keepAlive [][]uint64
 
+// allocBudget bounds what one operation sequence may allocate (a runaway
+// loop that keeps allocating overflow buckets must end the sequence, not the machine)
+var allocBudget int64
+
 func allocZ(n uintptr) unsafe.Pointer {
 	if n == 0 {
 		n = 1
+	}
+	allocBudget -= int64(n)
+	if allocBudget < 0 {
+		panic("allocation budget of the test sequence exceeded (runaway allocation)")
 	}
 	b := make([]uint64, (n+7)/8)
 	keepAlive = append(keepAlive, b)
@@ -58,9 +68,20 @@ func newarray(typ *_type, n int) unsafe.Pointer {
 	return allocZ(typ.Size_ * uintptr(n))
 }
 
-func roundupsize(size uintptr) uintptr { return size }
+// stand-in for the clite package `c` as far as the extracted helpers use it
+type cShim struct{}
 
-func add(p unsafe.Pointer, x uintptr) unsafe.Pointer { return unsafe.Pointer(uintptr(p) + x) }
+var c cShim
+
+func (cShim) Memset(p unsafe.Pointer, v int, n uintptr) unsafe.Pointer {
+	if n > 0 {
+		b := unsafe.Slice((*byte)(p), n)
+		for i := range b {
+			b[i] = byte(v)
+		}
+	}
+	return p
+}
 
 func memmove(dst, src unsafe.Pointer, n uintptr) {
 	if n == 0 {
@@ -83,8 +104,6 @@ func memclr(p unsafe.Pointer, n uintptr) {
 	}
 }
 
-func memclrHasPointers(p unsafe.Pointer, n uintptr)    { memclr(p, n) }
-func memclrNoHeapPointers(p unsafe.Pointer, n uintptr) { memclr(p, n) }
 
 // deterministic random source (seeded by the test)
 var rngState uint64 = 0x9E3779B97F4A7C15
